@@ -675,6 +675,16 @@ Fixpoint tree_eqb (a b : dtree) : bool :=
   | _, _ => false
   end.
 
+(** the same decision written with the negated test and swapped arms is the same tree *)
+Fixpoint norm_tree (t : dtree) : dtree :=
+  match t with
+  | TIf (EOp op [a; b]) t1 t2 =>
+    if String.eqb op "!=" then TIf (EOp "==" [a; b]) (norm_tree t2) (norm_tree t1) else TIf (EOp op [a; b]) (norm_tree t1) (norm_tree t2)
+  | TIf c t1 t2 => TIf c (norm_tree t1) (norm_tree t2)
+  | _ => t
+  end.
+Definition same_tree (a b : dtree) : bool := tree_eqb (norm_tree a) (norm_tree b).
+
 Definition lookup (g : ds_gen) (name : string) : option ds_entry := find (fun e => String.eqb (de_name e) name) (g_table g).
 
 (** accepted second form: the timestamp printed at its full width ("%lld", (long long) tv.tv_sec) *)
@@ -683,14 +693,14 @@ Definition alternatives (name : string) : list dtree := if seq name "timestamp" 
 
 Definition entry_ok (g : ds_gen) (name : string) : bool :=
   match lookup g name, expected (g_consts g) name with
-  | Some e, Some t => tree_eqb (de_tree e) t || existsb (tree_eqb (de_tree e)) (alternatives name)
+  | Some e, Some t => same_tree (de_tree e) t || existsb (same_tree (de_tree e)) (alternatives name)
   | _, _ => false
   end.
 
 (** the timestamp is exact for clock values below this bound (the int cast of the current source wraps at 2^31) *)
 Definition ts_exact_below (g : ds_gen) : Z :=
   match lookup g "timestamp" with
-  | Some e => if tree_eqb (de_tree e) t_timestamp_wide then two63 else two31
+  | Some e => if same_tree (de_tree e) t_timestamp_wide then two63 else two31
   | None => two31
   end.
 
